@@ -503,6 +503,29 @@ class Rank:
         fiber.setOwner(None)
         return fiber
 
+    def removeFibers(self, fibers):
+        """
+        Remove specific fibers (by identity) from the rank
+
+        Parameters
+        ----------
+
+        fibers: list of Fibers
+            The fibers that are no longer part of this rank
+
+        Returns
+        _______
+
+        None
+        """
+        doomed = {id(f) for f in fibers}
+
+        self.fibers = [f for f in self.fibers if id(f) not in doomed]
+
+        for fiber in fibers:
+            if fiber.getOwner() is self:
+                fiber.setOwner(None)
+
 #
 # Linked list methods
 #
